@@ -408,13 +408,9 @@ func check(prop, tier string) int {
 				infra++
 			}
 			msg := readViolationMsg(failDir)
-			if known := matchKnown(prop, failDir); known != "" {
-				lines = append(lines, fmt.Sprintf("KNOWN-FINDING: property=%s %s (re-found by generation: %s)", prop, known, msg))
-			} else {
-				violations++
-				lines = append(lines, fmt.Sprintf("VIOLATION property=%s replay=%s", prop, dst))
-				lines = append(lines, "  "+msg)
-			}
+			violations++
+			lines = append(lines, fmt.Sprintf("VIOLATION property=%s replay=%s", prop, dst))
+			lines = append(lines, "  "+msg)
 		} else if r.err != nil {
 			infra++
 			lines = append(lines, fmt.Sprintf("INFRA shard %d failed without a saved case: %v\n%s", r.idx, r.err, tail(r.out, 40)))
@@ -490,29 +486,6 @@ func readViolationMsg(dir string) string {
 		m = m[:600] + "..."
 	}
 	return m
-}
-
-// matchKnown decides whether a generated failure is an already-listed finding: same property, same
-// oracle and the finding's signature occurs in the failure message.
-func matchKnown(prop, failDir string) string {
-	b, _ := os.ReadFile(filepath.Join(failDir, "violation.json"))
-	var v struct {
-		Oracle string `json:"oracle"`
-		Msg    string `json:"msg"`
-	}
-	_ = json.Unmarshal(b, &v)
-	for _, f := range loadFindings() {
-		if f.Status != "open" || f.Property != prop || f.Signature == "" {
-			continue
-		}
-		if f.Oracle != "" && f.Oracle != v.Oracle {
-			continue
-		}
-		if strings.Contains(v.Msg, f.Signature) {
-			return f.ID + " " + f.Title
-		}
-	}
-	return ""
 }
 
 // runKnownAndCorpus replays the listed findings (each must still fail the same way -> KNOWN-FINDING line)
